@@ -622,7 +622,7 @@ class World:
                     w = {'what': 'call_not_executed', 'cut': any(st0.was_cut(p) for p in pks),
                          'pay': s['pay'], 'size': s['size'], 'written': bool(pks)}
                     break
-                if clause == 'C19.result' and rel.get(sid) and not dl.get(sid):
+                if clause == 'C19.result' and rel.get(sid) and not dl.get(sid) and not s.get('nr'):
                     st1 = self.streams[(s['conn'], 1)]
                     pks = [p for p in st1.packets if p['kind'] == 'reply' and p['sid'] == sid]
                     w = {'what': 'no_deliver', 'callee_raised': rel.get(sid) == 2,
